@@ -42,6 +42,7 @@ def decFilter (s : String) : Option (Option Filter) :=
 def showErr : Err → String
   | .indexError => "!indexError" | .invalidLine => "!invalidLine" | .invalidFilter => "!invalidFilter"
   | .cannotSaveFiltered => "!cannotSaveFiltered" | .roleDefinition => "!roleDefinition"
+  | .invalidPath => "!invalidPath"
 
 def showOE : Option Err → String
   | none => "ok" | some e => showErr e
@@ -69,6 +70,8 @@ structure DState where
       (a fresh enforcer on a filtered adapter holds the empty subset); `none` = a load failed, the property does not
       say what memory holds then -/
   lastFiltered : Option Bool := some true
+  /-- the policy file exists (`gone` / `back` remove and restore it) -/
+  present : Bool := true
   deriving Inhabited
 
 /-- expected memory after a filtered load (literal reading of C12), when the full load raises nothing -/
@@ -97,7 +100,28 @@ def handleLoadF (clear : Bool) (d : DState) (f : Option Filter) : DState × Stri
    "model=" ++ showOE e ++ "," ++ encStore s'.mem ++ "," ++ encBool s'.filtered ++ " spec=" ++ spec ++ " dom=" ++
      encBool (inDomain d.s f))
 
-def handle (d : DState) (fs : List String) : DState × String :=
+/-- the history operations while the policy file is missing (`Model.stepF`) -/
+def handleMissing (d : DState) (o : Op) : DState × String :=
+  let (fs', e) := stepF { e := d.s, present := false } (.op o)
+  match o with
+  | .load =>
+    -- nothing is touched: memory holds what it held
+    ({ d with s := fs'.e },
+     "model=" ++ showOE e ++ "," ++ encStore fs'.e.mem ++ "," ++ encBool fs'.e.filtered ++ " spec=? dom=T")
+  | .loadIncrement _ =>
+    ({ d with s := fs'.e },
+     "model=" ++ showOE e ++ "," ++ encStore fs'.e.mem ++ "," ++ encBool fs'.e.filtered ++ " spec=? dom=T")
+  | .loadFiltered _ =>
+    ({ d with s := fs'.e, lastFiltered := none },
+     "model=" ++ showOE e ++ "," ++ encStore fs'.e.mem ++ "," ++ encBool fs'.e.filtered ++ " spec=? dom=T")
+  | .save | .adapterSave =>
+    let spec := match d.lastFiltered with
+      | some true => "!cannotSaveFiltered," ++ encS d.s.file
+      | some false => "ok," ++ encS (saveFile d.s.mem)
+      | none => "?"
+    ({ d with s := fs'.e, present := fs'.present }, "model=" ++ showOE e ++ "," ++ encS fs'.e.file ++ " spec=" ++ spec)
+
+def handlePresent (d : DState) (fs : List String) : DState × String :=
   match fs with
   | ["spacetable"] =>
     let l := (List.range 0x110000).filter fun n => n.isValidChar && isSpace (Char.ofNat n)
@@ -159,14 +183,16 @@ def handle (d : DState) (fs : List String) : DState × String :=
     (d, match decFilter f with | some (some f) => encBool (isEmptyFilter f) | _ => "bad-op")
   | ["init", st, text] =>
     match decStore st, decS text with
-    | some st, some text => ({ s := { mem := st, file := text }, lastFiltered := some true }, "ok")
+    | some st, some text => ({ s := { mem := st, file := text }, lastFiltered := some true, present := true }, "ok")
     | _, _ => (d, "bad-op")
   | ["load"] =>
     let (s', e) := loadPolicy d.s
     let spec := match loadFile d.s.file (clearPG d.s.mem) with
       | (_, some _) => "?"
       | (m, none) => encStore m ++ ",F"
-    ({ s := s', lastFiltered := if e.isNone then some false else none },
+    -- a failed full load leaves memory as it was (the enforcer loads into a copy and rolls back), so what memory
+    -- holds - a filtered subset or not - is what it was before
+    ({ s := s', lastFiltered := if e.isNone then some false else d.lastFiltered },
      "model=" ++ showOE e ++ "," ++ encStore s'.mem ++ "," ++ encBool s'.filtered ++ " spec=" ++ spec ++ " dom=T")
   | ["loadf", f] =>
     match decFilter f with
@@ -191,5 +217,19 @@ def handle (d : DState) (fs : List String) : DState × String :=
         " links=" ++ encRules' (d.s.links.map fun (k, a) => k :: a))
     else (d, "bad-op")
   | _ => (d, "bad-op")
+
+def handle (d : DState) (fs : List String) : DState × String :=
+  match fs with
+  | ["gone"] => ({ d with present := false }, "ok")
+  | ["back"] => ({ d with present := true }, "ok")
+  | _ =>
+    if d.present then handlePresent d fs
+    else match fs with
+      | ["load"] => handleMissing d .load
+      | ["loadf", f] => (match decFilter f with | some f => handleMissing d (.loadFiltered f) | none => (d, "bad-op"))
+      | ["loadinc", f] => (match decFilter f with | some f => handleMissing d (.loadIncrement f) | none => (d, "bad-op"))
+      | ["save"] => handleMissing d .save
+      | ["asave"] => handleMissing d .adapterSave
+      | _ => handlePresent d fs
 
 end Casbin.Driver.Persist
